@@ -160,6 +160,27 @@ def run(ctx):
                 detail = {}
             ctx.violations.append({'stream': 'respell', 'case': dict(show, canonical_text=r[1]), 'impl': io[:200], 'model': detail, 'what': what})
         ctx.sample({'spelling': c['spelling'], 'text': c['text'][:200]}, limit=4)
+    # ---- every keyword of the language, alone, in upper, lower, capitalised and alternating case: the same token (exhaustive
+    #      over the alphabetic `#[token]` literals of token.rs)
+    from .. import lexcheck
+    kwl = sorted({l.upper() for (v, l, ic) in lits if l[0].isalpha()})
+    def spellings(w):
+        alt = ''.join(c.upper() if k % 2 else c.lower() for k, c in enumerate(w))
+        return [w, w.lower(), w.capitalize(), alt, alt.swapcase()]
+    kreqs = [(w, sp) for w in kwl for sp in spellings(w)]
+    kout = core.run_lines(core.VH, ['lex ' + core.hexs(sp + ' x') for (w, sp) in kreqs], jobs=8)
+    kref = {}
+    for (w, sp), o in zip(kreqs, kout):
+        ctx.evaluations += 1
+        ctx.count('keyword-case:spellings')
+        p = lexcheck.parse_lex(o)
+        ty = (p[0][0][0] if p and p[0] and not p[1] else 'lexical-error') if p else 'no-answer'
+        if sp == w: kref[w] = ty
+        elif ty != kref.get(w):
+            ctx.violations.append({'stream': 'keyword-case', 'case': {'spelling': 'kw', 'text': sp + ' x', 'canonical_text': w + ' x'}, 'impl': o[:200], 'model': None,
+                                   'what': f'the keyword {w} written `{sp}` is the token {ty}, written `{w}` it is {kref.get(w)}'})
+        else:
+            ctx.feature(('keyword-case', w, sp))
     ctx.violations.sort(key=lambda v: len(v['case']['text']))
     ctx.corr_fail.sort(key=lambda v: len(v['case']['text']))
     # shrink the first violation at lexeme level is left to the replay; keep the smallest text first
